@@ -234,7 +234,9 @@ func (d *segmentationDescriptor) parseDescriptor(data []byte) error {
 			if buf.Len() < 10 {
 				return gots.ErrInvalidSCTE35Length
 			}
-			d.duration = uint40(buf.Next(5))
+			// segmentation_duration is a full 40 bit field
+			durationBytes := buf.Next(5)
+			d.duration = gots.PTS(durationBytes[0])<<32 | gots.PTS(binary.BigEndian.Uint32(durationBytes[1:]))
 		}
 		// Upid unneeded now...
 		d.upidType = SegUPIDType(readByte())
